@@ -386,7 +386,14 @@ def c04_worker(job):
         return out
     try:
         recs = case.meta['records']
+        multi = rng.random() < 0.5
         with gen_ref.quiet():
+            if multi:
+                # two identical isoforms per gene + I->L variants: the same peptide reaches the
+                # global validity filter from two transcripts (of one batch when threads > 1)
+                genome, anno, _ = gen_ref.load_reference(case)
+                recs = recs + gen_ref.plant_i_to_l(anno, genome, rng, 2)
+                recs = gen_ref.duplicate_isoforms(case, recs)
             gen_ref.write_gvfs(case, recs)
         if not case.gvfs:
             out['stats']['empty'] = 1
@@ -413,6 +420,20 @@ def c04_worker(job):
             out['cases'].append(('run', line, pipe.real_line(struct, run, lab), desc))
             for v in pipe.hygiene_violations(run, canon, limits)[:3]:
                 out['violations'].append((f'callVariant: {v}', dict(desc, kind='hygiene')))
+            if multi:
+                th = rng.choice([2, 3])
+                run2 = gen_ref.run_call_variant(case, tag='cvt', threads=th, **kw)
+                out['stats']['multi_isoform_thread_runs'] = 1
+                d2 = dict(desc, threads=th, multi_isoform=True)
+                if run2.status == 'ok':
+                    rej = sum(1 for r in run2.trace if r['kind'] == 'wrapper'
+                              for sq in r['peptides'] if sq in canon)
+                    out['stats']['globally_rejected_peptides'] = rej
+                    line2, lab2 = pipe.model_line(struct, run2, set(), th, False, limits, canon)
+                    out['cases'].append(('run', line2, pipe.real_line(struct, run2, lab2), d2))
+                    for v in pipe.hygiene_violations(run2, canon, limits)[:3]:
+                        out['violations'].append((f'callVariant --threads {th}: {v}',
+                                                  dict(d2, kind='hygiene')))
         # callNovelORF / callAltTranslation
         for cmd in ('callNovelORF', 'callAltTranslation'):
             r2, canon2 = run_other(case, cmd, kw, rng)
